@@ -86,6 +86,8 @@ type FnCtx struct {
 	usedGlobals map[string]bool
 	usedLemmas map[string]bool
 	inlineLoops map[*ssa.BasicBlock]*loopInfo
+	concrete bool
+	entryInfo *EntryInfo
 }
 
 type retK func(s *State, rets []Val)
@@ -268,7 +270,7 @@ func (fc *FnCtx) oblige(s *State, name, kind string, props []string, text string
 		return
 	}
 	o := &Obligation{Func: fc.key, Name: name, Kind: kind, Props: props, Text: text, Where: where,
-		Hyps: s.pc[:len(s.pc):len(s.pc)], Goal: goal, Trace: s.trace[:len(s.trace):len(s.trace)], PathID: fc.npaths}
+		Hyps: s.pc[:len(s.pc):len(s.pc)], Goal: goal, Trace: s.trace[:len(s.trace):len(s.trace)], PathID: fc.npaths, Entry: fc.entryInfo}
 	fc.obls = append(fc.obls, o)
 }
 
@@ -312,6 +314,7 @@ func (fc *FnCtx) run() (err error) {
 		_ = fv
 		return fmt.Errorf("%s: closures are only supported as deferred handlers", fc.key)
 	}
+	fc.entryInfo = ei
 	fc.globalAssumptions(s)
 	fc.oldHeap = s.snapshotHeap()
 	// function frame
